@@ -201,6 +201,8 @@ def run(ctx):
         "identities on the implementation's outputs are evaluated in double arithmetic by the Lean driver and accepted within the same band",
         "inputs are points of the declared box with the dimensions of the statement (n = m+k-1, k>=1 for DTLZ1; n = m+9 for DTLZ2-4; "
         "n = 30 for ZDT1); the raising branches (IndexError for too few variables, ZeroDivisionError at x1 = 0) lie outside and are not compared",
+        "concurrent stream: 4 threads evaluate different points on one problem object (switch interval 1e-6 s); a one-sided test - it can only "
+        "report an objective vector that violates the identity, and which interleavings occur is up to the interpreter",
     ]
     cases = list(_corpus) + gen_cases(ctx)
     # the box the theorems assume ([0,1]^n; [0.1,1]x[0,5]) must be the box the implementation declares
@@ -294,6 +296,63 @@ def run(ctx):
         if fam in model_fail and fam not in prop_fail:
             c, kind, what, model = model_fail[fam]
             report(ctx, c, kind, what, model=model)
+    if not ctx.failures:
+        run_concurrent(ctx)
+
+
+def run_concurrent(ctx):
+    """The same clauses on objective vectors obtained while several threads evaluate different points on ONE problem
+    object - what the framework's own parallel path does (Evaluator.evaluate_parallel shares the problem between its
+    worker threads).  One-sided: on code whose evaluate() keeps its intermediates local every result is the serial one."""
+    import sys
+    import threading
+    from artap.individual import Individual
+    rng = ctx.rng
+    nthreads, per_thread = 4, (60 if ctx.quick else 600)
+    old = sys.getswitchinterval()
+    sys.setswitchinterval(1e-6)
+    try:
+        for fam in FAMILIES:
+            m = 3 if fam in DTLZ else 2
+            n = {"dtlz1": m + 4, "zdt1": 30, "biobj": 2}.get(fam, m + KDIST - 1)
+            bounds = box(fam, m, n)
+            pts = [gen_point(rng, fam, m, n, bounds)[0] for _ in range(nthreads * per_thread)]
+            p = problem(fam, m, n)
+            outs = [None] * len(pts)
+            start = threading.Barrier(nthreads)
+
+            def work(t):
+                start.wait()
+                for k in range(t, len(pts), nthreads):
+                    try:
+                        outs[k] = [float(v) for v in p.evaluate(Individual(list(pts[k])))]
+                    except Exception as e:   # noqa
+                        outs[k] = repr(e)
+            ths = [threading.Thread(target=work, args=(t,)) for t in range(nthreads)]
+            for th in ths:
+                th.start()
+            for th in ths:
+                th.join()
+            for x, f in zip(pts, outs):
+                ctx.case(("conc", fam, tuple(bits(t) for t in x)), True)
+                ctx.count("concurrent_evaluations_" + fam)
+                bad = None
+                if not isinstance(f, list) or len(f) != (m if fam in DTLZ else 2):
+                    bad = "returned %r" % (f,)
+                else:
+                    lhs, rhs = identity(fam, m, x, f)
+                    if not close(lhs, rhs):
+                        bad = "identity %s fails: lhs=%r rhs=%r (f=%r)" % (IDENT_TEXT[fam], lhs, rhs, f)
+                    elif any(not (t >= 0.0) for t in f):
+                        bad = "negative objective %r" % (f,)
+                if bad:
+                    serial = impl(fam, m, x)
+                    ctx.fail("%s-concurrent" % fam, "%s (m=%d) evaluated at x=%r while %d threads evaluate other points on the same problem object: "
+                             "%s; evaluated alone the same point gives %r" % (fam, m, x, nthreads, bad, serial),
+                             {"family": fam, "m": m, "x": list(x), "kind": "concurrent", "threads": nthreads})
+                    break
+    finally:
+        sys.setswitchinterval(old)
 
 
 def report(ctx, c, kind, what, model=None):
@@ -339,6 +398,16 @@ def replay(ctx, rp):
         got = [list(b) for b in box(c["family"], c["m"], c["n"])]
         print("%s declares the box %r, the property is proved for %r" % (c["family"], got, c["assumed"]))
         return got == [list(b) for b in c["assumed"]]
+    if c.get("kind") == "concurrent":
+        # the failing value depends on the interleaving of the threads: run the concurrent stream again (a few rounds)
+        for _ in range(5):
+            before = len(ctx.failures)
+            run_concurrent(ctx)
+            if len(ctx.failures) > before:
+                print(ctx.failures[-1]["what"])
+                return False
+        print("5 concurrent rounds of every family: every objective vector satisfies its identity")
+        return True
     ok = True
     for tag, x in (("original", c["x"]), ("shrunk", (c.get("shrunk") or {}).get("x"))):
         if x is None:
